@@ -109,6 +109,21 @@ theorem map_upd_field {α β} (f : α → β) (c : α → Bool) (g : α → α) 
   simp only [Function.comp]
   split <;> simp [h]
 
+theorem ite_field {α β} (f : α → β) (c : Prop) [Decidable c] (a b : α) (h : f a = f b) :
+    f (if c then a else b) = f b := by
+  split
+  · exact h
+  · rfl
+
+theorem forall_map_upd {α} (P : α → Prop) (c : α → Bool) (g : α → α) (l : List α)
+    (h : ∀ x ∈ l, P x) (hg : ∀ x, P x → P (g x)) :
+    ∀ y ∈ l.map (fun x => if c x then g x else x), P y := by
+  intro y hy
+  obtain ⟨x, hx, rfl⟩ := List.mem_map.mp hy
+  split
+  · exact hg x (h x hx)
+  · exact h x hx
+
 theorem uniqOK_iff (s : St) : uniqOK s = true ↔ Uniq s := by
   simp only [uniqOK, Bool.and_eq_true, nodupB_iff]
   constructor
@@ -526,16 +541,14 @@ theorem core0_applyIndex {s : St} (c : Core0 s) (mfid : Nat) (hm : mfid ∈ s.fi
   · simp only [hpk]; exact c.filePk
   · simp only [hname]; exact c.fileName
   · simp only [hblob]; exact c.fileBlobU
-  · intro f hf
-    simp only [List.mem_map] at hf
-    obtain ⟨g, hg, rfl⟩ := hf
-    have := c.fileStream g hg
-    split <;> exact this
-  · intro f hf
-    simp only [List.mem_map] at hf
-    obtain ⟨g, hg, rfl⟩ := hf
-    have := c.fileBlob g hg
-    split <;> exact this
+  · exact forall_map_upd (fun f : MediaFile => f.stream ∈ s.streams.map (fun x : Stream => x.pk))
+      (fun f : MediaFile => f.pk == mfid)
+      (fun f => { f with rep := some { track := ct.track, ctype := ct.ctype, enc := ct.enc },
+                         errs := if ct.badlang then [errBadLang] else [] }) _ c.fileStream (fun _ h => h)
+  · exact forall_map_upd (fun f : MediaFile => f.blob ∈ s.blobs.map (fun x : Blob => x.pk))
+      (fun f : MediaFile => f.pk == mfid)
+      (fun f => { f with rep := some { track := ct.track, ctype := ct.ctype, enc := ct.enc },
+                         errs := if ct.badlang then [errBadLang] else [] }) _ c.fileBlob (fun _ h => h)
   · intro l hl
     simp only [hpk]
     rcases k5 l hl with h | h
@@ -544,7 +557,7 @@ theorem core0_applyIndex {s : St} (c : Core0 s) (mfid : Nat) (hm : mfid ∈ s.fi
 
 theorem tref_applyIndex {s : St} (h : TrefOK s) (mfid : Nat) (ct : Content) :
     TrefOK (applyIndex s mfid ct) := by
-  apply tref_of_files h rfl
+  apply tref_of_files (s' := applyIndex s mfid ct) h rfl
   unfold applyIndex
   exact map_upd_field (fun f => (f.name, f.stream)) (fun f : MediaFile => f.pk == mfid)
     (fun f => { f with rep := some { track := ct.track, ctype := ct.ctype, enc := ct.enc },
@@ -571,5 +584,565 @@ theorem inv_index {s : St} (hs : Inv s) (mfid : Nat) : Inv (index s mfid).1 := b
         exact ⟨⟨core0_applyIndex hs.1.toCore0 mfid hmem _, tref_applyIndex hs.1.tref mfid _⟩,
                uniq_applyIndex hs.2 mfid _⟩
       · exact hs
+
+/-! ### upload -/
+
+theorem Core0.of_eq {s s' : St} (c : Core0 s) (h1 : s'.streams = s.streams) (h2 : s'.files = s.files)
+    (h3 : s'.blobs = s.blobs) (h4 : s'.keys = s.keys) (h5 : s'.links = s.links) (h6 : s'.mps = s.mps)
+    (h7 : s'.periods = s.periods) (h8 : s'.adps = s.adps) : Core0 s' := by
+  obtain ⟨a1, a2, a3, a4, a5, a6, a7, a8, a9, a10, a11, a12, a13, a14, a15, a16, a17, a18, a19⟩ := c
+  constructor <;> simp only [h1, h2, h3, h4, h5, h6, h7, h8] <;> assumption
+
+theorem core0_dropFile {s : St} (c : Core0 s) {f : MediaFile} (hf : f ∈ s.files) :
+    Core0 (dropFile s f) := by
+  unfold dropFile
+  refine { c with filePk := nodup_map_filter _ _ c.filePk, fileName := nodup_map_filter _ _ c.fileName,
+                  fileBlobU := nodup_map_filter _ _ c.fileBlobU, blobPk := nodup_map_filter _ _ c.blobPk,
+                  blobName := nodup_map_filter _ _ c.blobName, linkU := nodup_filter _ c.linkU,
+                  fileStream := ?_, fileBlob := ?_, linkFile := ?_, linkKey := ?_ }
+  · intro g hg; exact c.fileStream g (List.mem_filter.mp hg).1
+  · intro g hg
+    simp only [List.mem_filter, bne_iff_ne, ne_eq] at hg
+    obtain ⟨b, hb, e⟩ := List.mem_map.mp (c.fileBlob g hg.1)
+    refine List.mem_map.mpr ⟨b, List.mem_filter.mpr ⟨hb, ?_⟩, e⟩
+    simp only [bne_iff_ne, ne_eq, e]
+    intro hgb
+    have := inj_of_nodup_map (·.blob) c.fileBlobU hg.1 hf hgb
+    subst this
+    exact hg.2 rfl
+  · intro l hl
+    simp only [List.mem_filter, bne_iff_ne, ne_eq] at hl
+    obtain ⟨g, hg, e⟩ := List.mem_map.mp (c.linkFile l hl.1)
+    refine List.mem_map.mpr ⟨g, List.mem_filter.mpr ⟨hg, ?_⟩, e⟩
+    simp only [bne_iff_ne, ne_eq, e]
+    exact hl.2
+  · intro l hl; exact c.linkKey l (List.mem_filter.mp hl).1
+
+/-- deleting a blob row that no media file uses -/
+theorem core0_dropBlob {s : St} (c : Core0 s) (k : Nat) (h : k ∉ s.files.map (·.blob)) :
+    Core0 { s with blobs := s.blobs.filter (·.pk != k) } := by
+  refine { c with blobPk := nodup_map_filter _ _ c.blobPk, blobName := nodup_map_filter _ _ c.blobName,
+                  fileBlob := ?_ }
+  intro g hg
+  obtain ⟨b, hb, e⟩ := List.mem_map.mp (c.fileBlob g hg)
+  refine List.mem_map.mpr ⟨b, List.mem_filter.mpr ⟨hb, ?_⟩, e⟩
+  simp only [bne_iff_ne, ne_eq, e]
+  intro hk
+  exact h (List.mem_map.mpr ⟨g, hg, hk⟩)
+
+/-- adding a media file with a new blob -/
+theorem core0_addFile {s : St} (c : Core0 s) (stem fn : String) (spk : Nat)
+    (hspk : spk ∈ s.streams.map (·.pk)) (hname : stem ∉ s.files.map (·.name))
+    (hfn : fn ∉ s.blobs.map (·.filename)) :
+    Core0 { s with
+      blobs := s.blobs ++ [{ pk := fresh (s.blobs.map (·.pk)), filename := fn }],
+      files := s.files ++ [{ pk := fresh (s.files.map (·.pk)), name := stem, stream := spk,
+                             blob := fresh (s.blobs.map (·.pk)), rep := none, errs := [] }] } := by
+  have hb := fresh_not_mem (s.blobs.map (·.pk))
+  refine { c with filePk := nodup_map_snoc _ c.filePk (fresh_not_mem _),
+                  fileName := nodup_map_snoc _ c.fileName hname,
+                  fileBlobU := nodup_map_snoc _ c.fileBlobU ?_,
+                  blobPk := nodup_map_snoc _ c.blobPk hb,
+                  blobName := nodup_map_snoc _ c.blobName hfn,
+                  fileStream := ?_, fileBlob := ?_, linkFile := ?_ }
+  · intro h
+    obtain ⟨g, hg, e⟩ := List.mem_map.mp h
+    simp only at e
+    have := c.fileBlob g hg
+    rw [e] at this
+    exact hb this
+  · intro g hg
+    simp only [List.mem_append, List.mem_singleton] at hg
+    rcases hg with hg | rfl
+    · exact c.fileStream g hg
+    · exact hspk
+  · intro g hg
+    simp only [List.mem_append, List.mem_singleton, List.map_append, List.map_cons, List.map_nil] at hg ⊢
+    rcases hg with hg | rfl
+    · exact Or.inl (c.fileBlob g hg)
+    · exact Or.inr rfl
+  · intro l hl
+    simp only [List.map_append, List.mem_append]
+    exact Or.inl (c.linkFile l hl)
+
+theorem findStream_mem {s : St} {k : Nat} {st : Stream} (h : findStream s k = some st) :
+    st ∈ s.streams ∧ st.pk = k := by
+  obtain ⟨a, b⟩ := find?_pk_mem h
+  exact ⟨a, by simpa using b⟩
+
+theorem inv_uploadAccepted {s : St} (hs : Inv s) (st : Stream) (hstm : st ∈ s.streams)
+    (stem suffix : String) (ct : Content) (mf : Option MediaFile)
+    (hmf : s.files.find? (fun x => x.name == stem) = mf)
+    (hacc : uploadRefused s st.pk (stem ++ suffix) mf = false) :
+    Inv (uploadAccepted s st stem suffix ct mf) := by
+  have hspk : st.pk ∈ s.streams.map (·.pk) := List.mem_map.mpr ⟨st, hstm, rfl⟩
+  obtain ⟨⟨c, ht⟩, u⟩ := hs
+  simp only [uploadRefused, Bool.or_eq_false_iff] at hacc
+  obtain ⟨hforeign, htaken⟩ := hacc
+  -- the rows after `mf.delete()`
+  have hs1 : ∀ s1 : St, s1 = dropOpt s mf →
+      Core0 s1 ∧ s1.streams = s.streams ∧ s1.mps = s.mps ∧ s1.periods = s.periods ∧ s1.adps = s.adps ∧
+      stem ∉ s1.files.map (·.name) ∧
+      (∀ g ∈ s1.files, g ∈ s.files) ∧ (∀ b ∈ s1.blobs, b ∈ s.blobs) ∧
+      (∀ f, mf = some f → (∀ g ∈ s1.files, g.pk ≠ f.pk) ∧ (∀ b ∈ s1.blobs, b.pk ≠ f.blob) ∧
+             f.stream = st.pk ∧ f.name = stem ∧ f ∈ s.files) ∧
+      (∀ g ∈ s.files, (∀ f, mf = some f → g.pk ≠ f.pk) → g ∈ s1.files) := by
+    intro s1 e
+    cases mf with
+    | none =>
+      simp only [dropOpt] at e
+      subst e
+      refine ⟨c, rfl, rfl, rfl, rfl, ?_, fun g hg => hg, fun b hb => hb, by simp, fun g hg _ => hg⟩
+      intro h
+      obtain ⟨g, hg, e⟩ := List.mem_map.mp h
+      have := List.find?_eq_none.mp hmf g hg
+      simp [e] at this
+    | some f =>
+      simp only [dropOpt] at e
+      subst e
+      obtain ⟨hfm, hfn⟩ := find?_pk_mem hmf
+      simp only [beq_iff_eq] at hfn
+      refine ⟨core0_dropFile c hfm, rfl, rfl, rfl, rfl, ?_, ?_, ?_, ?_, ?_⟩
+      · intro h
+        obtain ⟨g, hg, e⟩ := List.mem_map.mp h
+        simp only [dropFile, List.mem_filter, bne_iff_ne, ne_eq] at hg
+        have := inj_of_nodup_map (·.name) c.fileName hg.1 hfm (by simp [e, hfn])
+        subst this
+        exact hg.2 rfl
+      · intro g hg; exact (List.mem_filter.mp hg).1
+      · intro b hb; exact (List.mem_filter.mp hb).1
+      · intro f' hf'
+        simp only [Option.some.injEq] at hf'
+        subst hf'
+        refine ⟨?_, ?_, ?_, hfn, hfm⟩
+        · intro g hg
+          simp only [dropFile, List.mem_filter, bne_iff_ne, ne_eq] at hg
+          exact hg.2
+        · intro b hb
+          simp only [dropFile, List.mem_filter, bne_iff_ne, ne_eq] at hb
+          exact hb.2
+        · simpa using hforeign
+      · intro g hg hne
+        simp only [dropFile, List.mem_filter, bne_iff_ne, ne_eq]
+        exact ⟨hg, hne f rfl⟩
+  unfold uploadAccepted
+  simp only
+  generalize hs1e : dropOpt s mf = s1
+  obtain ⟨c1, e1, e2, e3, e4, hn1, hf1, hb1, hmf1, hkeep⟩ := hs1 s1 hs1e.symm
+  -- the ownerless blob row
+  have hs2 : ∀ blobs2 : List Blob, blobs2 = dropOrphan s1.blobs (stem ++ suffix) →
+      Core0 { s1 with blobs := blobs2 } ∧ (stem ++ suffix) ∉ blobs2.map (·.filename) := by
+    intro blobs2 e
+    unfold dropOrphan at e
+    generalize horph : s1.blobs.find? (fun x => x.filename == stem ++ suffix) = orphan at e
+    cases orphan with
+    | none =>
+      subst e
+      refine ⟨c1.of_eq rfl rfl rfl rfl rfl rfl rfl rfl, ?_⟩
+      intro h
+      obtain ⟨b, hb, e⟩ := List.mem_map.mp h
+      have := List.find?_eq_none.mp horph b hb
+      simp [e] at this
+    | some b =>
+      subst e
+      obtain ⟨hbm, hbn⟩ := find?_pk_mem horph
+      simp only [beq_iff_eq] at hbn
+      refine ⟨core0_dropBlob c1 b.pk ?_, ?_⟩
+      · -- no remaining media file owns `b`
+        intro h
+        obtain ⟨g, hg, hgb⟩ := List.mem_map.mp h
+        have hgs := hf1 g hg
+        have hbs := hb1 b hbm
+        -- `b` is the blob of that name in `s`
+        have hfind : ∃ b0, s.blobs.find? (fun x => x.filename == stem ++ suffix) = some b0 := by
+          cases hq : s.blobs.find? (fun x => x.filename == stem ++ suffix) with
+          | none =>
+            have := List.find?_eq_none.mp hq b hbs
+            simp [hbn] at this
+          | some b0 => exact ⟨b0, rfl⟩
+        obtain ⟨b0, hb0⟩ := hfind
+        obtain ⟨hb0m, hb0n⟩ := find?_pk_mem hb0
+        simp only [beq_iff_eq] at hb0n
+        have hbb : b0 = b := inj_of_nodup_map (·.filename) c.blobName hb0m hbs (by simp [hb0n, hbn])
+        subst hbb
+        -- its owner in `s` is `g`
+        have hown : ∃ o, s.files.find? (fun x => x.blob == b0.pk) = some o := by
+          cases hq : s.files.find? (fun x => x.blob == b0.pk) with
+          | none =>
+            have := List.find?_eq_none.mp hq g hgs
+            simp [hgb] at this
+          | some o => exact ⟨o, rfl⟩
+        obtain ⟨o, ho⟩ := hown
+        obtain ⟨hom, hob⟩ := find?_pk_mem ho
+        simp only [beq_iff_eq] at hob
+        have hog : o = g := inj_of_nodup_map (·.blob) c.fileBlobU hom hgs (by simp [hob, hgb])
+        subst hog
+        simp only [hb0, ho] at htaken
+        cases mf with
+        | none => simp at htaken
+        | some f =>
+          simp only [bne_eq_false_iff_eq] at htaken
+          exact (hmf1 f rfl).1 o hg htaken
+      · intro h
+        obtain ⟨b', hb', e⟩ := List.mem_map.mp h
+        simp only [List.mem_filter, bne_iff_ne, ne_eq] at hb'
+        have := inj_of_nodup_map (·.filename) c1.blobName hb'.1 hbm (by simp [e, hbn])
+        subst this
+        exact hb'.2 rfl
+  generalize hb2e : dropOrphan s1.blobs (stem ++ suffix) = blobs2
+  obtain ⟨c2, hfn2⟩ := hs2 blobs2 hb2e.symm
+  have hspk1 : st.pk ∈ ({ s1 with blobs := blobs2 } : St).streams.map (fun x : Stream => x.pk) := by
+    simp only [e1]; exact hspk
+  have c3 := core0_addFile c2 stem (stem ++ suffix) st.pk hspk1 hn1 hfn2
+  refine ⟨⟨c3.of_eq rfl rfl rfl rfl rfl rfl rfl rfl, ?_⟩, u.of_eq e1 e2 e3 e4⟩
+  -- timing references: the replaced file is still there under its name
+  intro x hx n hn
+  simp only [e1] at hx
+  obtain ⟨g, hg, hgn, hgs⟩ := ht x hx n hn
+  by_cases hgf : ∃ f, mf = some f ∧ g.pk = f.pk
+  · obtain ⟨f, hf, hpk⟩ := hgf
+    obtain ⟨_, _, hfs, hfn, hfm⟩ := hmf1 f hf
+    have : g = f := inj_of_nodup_map (·.pk) c.filePk hg hfm hpk
+    subst this
+    refine ⟨_, List.mem_append.mpr (Or.inr (List.mem_singleton.mpr rfl)), ?_, ?_⟩
+    · simp only; rw [← hgn, hfn]
+    · simp only; rw [← hgs, hfs]
+  · exact ⟨g, List.mem_append.mpr (Or.inl (hkeep g hg (fun f hf hpk => hgf ⟨f, hf, hpk⟩))), hgn, hgs⟩
+
+theorem inv_upload {s : St} (hs : Inv s) (spk : Nat) (stem suffix : String) (ct : Content) :
+    Inv (upload s spk stem suffix ct).1 := by
+  unfold upload
+  split
+  · exact hs
+  · next st hst =>
+    obtain ⟨hstm, hstk⟩ := findStream_mem hst
+    subst hstk
+    simp only
+    split
+    · exact hs
+    · next hacc =>
+      exact inv_uploadAccepted hs st hstm stem suffix ct _ rfl (by simpa using hacc)
+
+/-! ### editing a media file -/
+
+theorem nodup_blob_replace (l : List MediaFile) (k v : Nat) (hpk : (l.map (·.pk)).Nodup)
+    (hb : (l.map (·.blob)).Nodup) (hv : v ∉ l.map (·.blob)) :
+    ((l.map (fun x => if x.pk == k then { x with blob := v } else x)).map (·.blob)).Nodup := by
+  induction l with
+  | nil => simp
+  | cons a l ih =>
+    simp only [List.map_cons, List.nodup_cons, List.mem_map, not_exists, not_and] at hpk hb hv ⊢
+    simp only [List.mem_cons, not_or] at hv
+    have hvl : v ∉ l.map (·.blob) := hv.2
+    refine ⟨?_, ih hpk.2 hb.2 hvl⟩
+    rintro y ⟨x, hx, rfl⟩
+    by_cases hak : (a.pk == k) = true
+    · have hxk : ¬ (x.pk == k) = true := by
+        intro hxk
+        exact hpk.1 x hx (by rw [beq_iff_eq.mp hxk, beq_iff_eq.mp hak])
+      simp only [hak, hxk, Bool.false_eq_true, if_true, if_false]
+      intro e
+      exact hvl (List.mem_map.mpr ⟨x, hx, e⟩)
+    · by_cases hxk : (x.pk == k) = true
+      · simp only [hak, hxk, Bool.false_eq_true, if_true, if_false]
+        intro e
+        exact hv.1 e
+      · simp only [hak, hxk, Bool.false_eq_true, if_false]
+        exact hb.1 x hx
+
+theorem inv_editMediaApply {s : St} (hs : Inv s) {f : MediaFile} (hf : f ∈ s.files) (nn : String)
+    (hnn : nn ∉ s.blobs.map (·.filename)) (ct : Content) : Inv (editMediaApply s f nn ct) := by
+  obtain ⟨⟨c, ht⟩, u⟩ := hs
+  have hfr := fresh_not_mem (s.blobs.map (·.pk))
+  have hfb : f.blob ∈ s.blobs.map (·.pk) := c.fileBlob f hf
+  have hv : fresh (s.blobs.map (·.pk)) ∉ s.files.map (·.blob) := by
+    intro h; obtain ⟨g, hg, e⟩ := List.mem_map.mp h; exact hfr (e ▸ c.fileBlob g hg)
+  have hpk := map_upd_field (·.pk) (fun x : MediaFile => x.pk == f.pk)
+    (fun x => { x with blob := fresh (s.blobs.map (·.pk)) }) s.files (fun _ => rfl)
+  have hname := map_upd_field (·.name) (fun x : MediaFile => x.pk == f.pk)
+    (fun x => { x with blob := fresh (s.blobs.map (·.pk)) }) s.files (fun _ => rfl)
+  have hns := map_upd_field (fun x => (x.name, x.stream)) (fun x : MediaFile => x.pk == f.pk)
+    (fun x => { x with blob := fresh (s.blobs.map (·.pk)) }) s.files (fun _ => rfl)
+  -- the new blob row and the re-pointed media file
+  have c1 : Core0 { s with
+      blobs := s.blobs ++ [{ pk := fresh (s.blobs.map (·.pk)), filename := nn }],
+      files := s.files.map (fun x => if x.pk == f.pk then { x with blob := fresh (s.blobs.map (·.pk)) } else x) } := by
+    refine { c with filePk := ?_, fileName := ?_, fileBlobU := nodup_blob_replace _ _ _ c.filePk c.fileBlobU hv,
+                    blobPk := nodup_map_snoc _ c.blobPk hfr, blobName := nodup_map_snoc _ c.blobName hnn,
+                    fileStream := ?_, fileBlob := ?_, linkFile := ?_ }
+    · simp only [hpk]; exact c.filePk
+    · simp only [hname]; exact c.fileName
+    · exact forall_map_upd (fun g : MediaFile => g.stream ∈ s.streams.map (fun x : Stream => x.pk))
+        (fun x : MediaFile => x.pk == f.pk) (fun x => { x with blob := fresh (s.blobs.map (·.pk)) }) _
+        c.fileStream (fun _ h => h)
+    · intro g hg
+      obtain ⟨x, hx, rfl⟩ := List.mem_map.mp hg
+      simp only [List.map_append, List.map_cons, List.map_nil, List.mem_append, List.mem_singleton]
+      split
+      · exact Or.inr rfl
+      · exact Or.inl (c.fileBlob x hx)
+    · simp only [hpk]; exact c.linkFile
+  have t1 : TrefOK { s with
+      blobs := s.blobs ++ [{ pk := fresh (s.blobs.map (·.pk)), filename := nn }],
+      files := s.files.map (fun x => if x.pk == f.pk then { x with blob := fresh (s.blobs.map (·.pk)) } else x) } :=
+    tref_of_files ht rfl hns
+  have hmem : f.pk ∈ ({ s with
+      blobs := s.blobs ++ [{ pk := fresh (s.blobs.map (·.pk)), filename := nn }],
+      files := s.files.map (fun x => if x.pk == f.pk then { x with blob := fresh (s.blobs.map (·.pk)) } else x) } : St).files.map
+        (fun x : MediaFile => x.pk) := by
+    simp only [hpk]; exact List.mem_map.mpr ⟨f, hf, rfl⟩
+  have c2 := core0_applyIndex c1 f.pk hmem ct
+  have t2 := tref_applyIndex t1 f.pk ct
+  -- the old blob row is used by no media file any more
+  have hold : f.blob ∉ (applyIndex { s with
+      blobs := s.blobs ++ [{ pk := fresh (s.blobs.map (·.pk)), filename := nn }],
+      files := s.files.map (fun x => if x.pk == f.pk then { x with blob := fresh (s.blobs.map (·.pk)) } else x) }
+        f.pk ct).files.map (fun x : MediaFile => x.blob) := by
+    unfold applyIndex
+    simp only
+    rw [map_upd_field (·.blob) (fun x : MediaFile => x.pk == f.pk)
+      (fun x => { x with rep := some { track := ct.track, ctype := ct.ctype, enc := ct.enc },
+                         errs := if ct.badlang then [errBadLang] else [] }) _ (fun _ => rfl)]
+    intro h
+    obtain ⟨y, hy, e⟩ := List.mem_map.mp h
+    obtain ⟨x, hx, rfl⟩ := List.mem_map.mp hy
+    by_cases hxk : (x.pk == f.pk) = true
+    · simp only [hxk, if_true] at e
+      exact hfr (e ▸ hfb)
+    · simp only [hxk] at e
+      have := inj_of_nodup_map (·.blob) c.fileBlobU hx hf e
+      subst this
+      simp at hxk
+  have c3 := core0_dropBlob c2 f.blob hold
+  unfold editMediaApply
+  refine ⟨⟨c3.of_eq rfl rfl rfl rfl rfl rfl rfl rfl, ?_⟩, ?_⟩
+  · exact tref_of_files t2 rfl rfl
+  · exact u.of_eq rfl rfl rfl rfl
+
+theorem inv_disk {s : St} (hs : Inv s) (d : List DiskFile) : Inv { s with disk := d } :=
+  ⟨⟨hs.1.toCore0.of_eq rfl rfl rfl rfl rfl rfl rfl rfl, tref_of_files hs.1.tref rfl rfl⟩,
+   hs.2.of_eq rfl rfl rfl rfl⟩
+
+theorem inv_editMedia {s : St} (hs : Inv s) (spk mfid track : Nat) :
+    Inv (editMedia s spk mfid track).1 := by
+  unfold editMedia
+  split
+  · exact hs
+  · split
+    · exact hs
+    · next f hf =>
+      obtain ⟨hfm, _⟩ := findFile_mem hf
+      split
+      · exact hs
+      · split
+        · exact hs
+        · split
+          · exact hs
+          · split
+            · exact hs
+            · simp only
+              split
+              · exact inv_disk hs _
+              · next hany =>
+                apply inv_disk
+                apply inv_editMediaApply hs hfm
+                intro h
+                obtain ⟨x, hx, e⟩ := List.mem_map.mp h
+                exact hany (List.any_eq_true.mpr ⟨x, hx, by simp [e]⟩)
+
+/-! ### periods of a multi-period request -/
+
+theorem syncTracks_spec (ppk : Nat) (ts : List Nat) : ∀ adps : List Adp,
+    (adps.map (·.pk)).Nodup →
+    ((syncTracks adps ppk ts).map (·.pk)).Nodup ∧
+    (∀ a ∈ syncTracks adps ppk ts, a ∈ adps ∨ a.period = ppk) := by
+  induction ts with
+  | nil => intro adps h; exact ⟨h, fun a ha => Or.inl ha⟩
+  | cons t ts ih =>
+    intro adps h
+    unfold syncTracks
+    split
+    · exact ih adps h
+    · obtain ⟨a1, a2⟩ := ih (adps ++ [{ pk := fresh (adps.map (·.pk)), period := ppk, track := t }])
+        (nodup_map_snoc _ h (fresh_not_mem _))
+      refine ⟨a1, ?_⟩
+      intro a ha
+      rcases a2 a ha with h' | h'
+      · simp only [List.mem_append, List.mem_singleton] at h'
+        rcases h' with h' | rfl
+        · exact Or.inl h'
+        · exact Or.inr rfl
+      · exact Or.inr h'
+
+/-- the invariant while the Periods of one request are processed: the UNIQUE
+constraints are only re-established by the flush -/
+def Mid (s : St) : Prop := Core0 s ∧ TrefOK s
+
+theorem mid_dropAdps {s : St} (h : Mid s) (d : List Nat) : Mid (dropAdps s d) := by
+  obtain ⟨c, t⟩ := h
+  unfold dropAdps
+  refine ⟨{ c with adpPk := nodup_map_filter _ _ c.adpPk, adpPeriod := ?_ }, tref_of_files t rfl rfl⟩
+  intro a ha
+  exact c.adpPeriod a (List.mem_filter.mp ha).1
+
+theorem mid_processPeriod {s : St} (h : Mid s) (mpsPk : Nat) (hm : mpsPk ∈ s.mps.map (·.pk))
+    (sp : PSpec) {s' : St} {d : List Nat} (hp : processPeriod s mpsPk sp = some (s', d)) :
+    Mid s' ∧ s'.mps = s.mps := by
+  obtain ⟨c, t⟩ := h
+  unfold processPeriod at hp
+  simp only at hp
+  split at hp
+  · simp at hp
+  · next st hst =>
+    obtain ⟨hstm, hstk⟩ := findStream_mem hst
+    have hsp : sp.stream ∈ s.streams.map (·.pk) := List.mem_map.mpr ⟨st, hstm, hstk⟩
+    split at hp
+    · simp at hp
+    · split at hp
+      · simp at hp
+      · split at hp
+        · simp at hp
+        · simp only [Option.some.injEq, Prod.mk.injEq] at hp
+          obtain ⟨hp, _⟩ := hp
+          subst hp
+          refine ⟨⟨?_, tref_of_files t rfl rfl⟩, rfl⟩
+          -- the Period row
+          generalize hex : (match sp.pk with
+            | some p => s.periods.find? (fun x => x.pk == p)
+            | none => s.periods.find? (fun q => q.pid == sp.pid && q.parent == mpsPk)) = existing
+          cases existing with
+          | some q =>
+            have hqm : q ∈ s.periods := by
+              cases hpk : sp.pk with
+              | some p => rw [hpk] at hex; exact (find?_pk_mem hex).1
+              | none => rw [hpk] at hex; exact (find?_pk_mem hex).1
+            simp only
+            have hpk := map_upd_field (·.pk) (fun x : Period => x.pk == q.pk)
+              (fun x => { x with pid := sp.pid, stream := sp.stream, ordering := sp.ordering }) s.periods
+              (fun _ => rfl)
+            obtain ⟨a1, a2⟩ := syncTracks_spec q.pk sp.tracks s.adps c.adpPk
+            refine { c with periodPk := ?_, adpPk := a1, periodParent := ?_, periodStream := ?_, adpPeriod := ?_ }
+            · simp only [hpk]; exact c.periodPk
+            · exact forall_map_upd (fun p : Period => p.parent ∈ s.mps.map (fun x : Mps => x.pk))
+                (fun x : Period => x.pk == q.pk)
+                (fun x => { x with pid := sp.pid, stream := sp.stream, ordering := sp.ordering }) _
+                c.periodParent (fun _ h => h)
+            · intro p hp
+              obtain ⟨x, hx, rfl⟩ := List.mem_map.mp hp
+              split
+              · exact hsp
+              · exact c.periodStream x hx
+            · intro a ha
+              simp only [hpk]
+              rcases a2 a ha with h' | h'
+              · exact c.adpPeriod a h'
+              · rw [h']; exact List.mem_map.mpr ⟨q, hqm, rfl⟩
+          | none =>
+            simp only
+            obtain ⟨a1, a2⟩ := syncTracks_spec (fresh (s.periods.map (·.pk))) sp.tracks s.adps c.adpPk
+            refine { c with periodPk := nodup_map_snoc _ c.periodPk (fresh_not_mem _), adpPk := a1,
+                            periodParent := ?_, periodStream := ?_, adpPeriod := ?_ }
+            · intro p hp
+              simp only [List.mem_append, List.mem_singleton] at hp
+              rcases hp with hp | rfl
+              · exact c.periodParent p hp
+              · exact hm
+            · intro p hp
+              simp only [List.mem_append, List.mem_singleton] at hp
+              rcases hp with hp | rfl
+              · exact c.periodStream p hp
+              · exact hsp
+            · intro a ha
+              simp only [List.map_append, List.map_cons, List.map_nil, List.mem_append, List.mem_singleton]
+              rcases a2 a ha with h' | h'
+              · exact Or.inl (c.adpPeriod a h')
+              · exact Or.inr h'
+
+theorem mid_processPeriods (defer : Bool) (mpsPk : Nat) (ps : List PSpec) :
+    ∀ (s : St) (doomed : List Nat), Mid s → mpsPk ∈ s.mps.map (·.pk) →
+    ∀ s', processPeriods defer s mpsPk ps doomed = some s' → Mid s' := by
+  induction ps with
+  | nil =>
+    intro s doomed h _ s' hp
+    simp only [processPeriods, Option.some.injEq] at hp
+    subst hp
+    exact mid_dropAdps h doomed
+  | cons sp rest ih =>
+    intro s doomed h hm s' hp
+    unfold processPeriods at hp
+    split at hp
+    · simp at hp
+    · next s1 d hpp =>
+      obtain ⟨h1, e1⟩ := mid_processPeriod h mpsPk hm sp hpp
+      split at hp
+      · simp at hp
+      · split at hp
+        · exact ih s1 (doomed ++ d) h1 (e1 ▸ hm) s' hp
+        · exact ih (dropAdps s1 d) doomed (mid_dropAdps h1 d) (by simpa [dropAdps, e1] using hm) s' hp
+
+theorem inv_commit' {s s' : St} (hs : Inv s) (hm : Mid s') : Inv (commit s s').1 :=
+  inv_commit hs ⟨hm.1, hm.2⟩
+
+theorem inv_addMps {s : St} (hs : Inv s) (name title : String) (ps : List PSpec) :
+    Inv (addMps s name title ps).1 := by
+  unfold addMps
+  split
+  · exact hs
+  · simp only
+    split
+    · exact hs
+    · next s2 hp =>
+      apply inv_commit' hs
+      obtain ⟨⟨c, t⟩, _⟩ := hs
+      refine mid_processPeriods false _ ps _ [] ⟨?_, tref_of_files t rfl rfl⟩ ?_ s2 hp
+      · refine { c with mpsPk := nodup_map_snoc _ c.mpsPk (fresh_not_mem _), periodParent := ?_ }
+        intro p hp
+        simp only [List.map_append, List.mem_append]
+        exact Or.inl (c.periodParent p hp)
+      · simp
+
+theorem findMps_mem {s : St} {n : String} {m : Mps} (h : findMps s n = some m) : m ∈ s.mps :=
+  (find?_pk_mem h).1
+
+theorem inv_editMps {s : St} (hs : Inv s) (urlName : String) (bodyPk : Option Nat) (name title : String)
+    (ps : List PSpec) : Inv (editMps s urlName bodyPk name title ps).1 := by
+  unfold editMps
+  split
+  · exact hs
+  · next m hm =>
+    split
+    · exact hs
+    · simp only
+      split
+      · exact hs
+      · next s2 hp =>
+        apply inv_commit' hs
+        obtain ⟨⟨c, t⟩, _⟩ := hs
+        have hpk := map_upd_field (·.pk) (fun x : Mps => x.pk == m.pk)
+          (fun x => { x with name := name, title := title }) s.mps (fun _ => rfl)
+        refine mid_processPeriods true _ ps _ [] ⟨?_, tref_of_files t rfl rfl⟩ ?_ s2 hp
+        · refine { c with mpsPk := ?_, periodParent := ?_ }
+          · simp only [hpk]; exact c.mpsPk
+          · simp only [hpk]; exact c.periodParent
+        · simp only [hpk]
+          exact List.mem_map.mpr ⟨m, findMps_mem hm, rfl⟩
+
+/-! ### every operation -/
+
+theorem inv_step_all {s : St} (hs : Inv s) (op : Op) : Inv (step s op).1 := by
+  cases op with
+  | addStream d t => exact inv_addStream hs d t
+  | editStream k d t r => exact inv_editStream hs k d t r
+  | delStream k => exact inv_delStream hs k
+  | upload k st su c => exact inv_upload hs k st su c
+  | index m => exact inv_index hs m
+  | editMedia k m t => exact inv_editMedia hs k m t
+  | delMedia k m => exact inv_delMedia hs k m
+  | addKey kid c => exact inv_addKey hs kid c
+  | editKey k c => exact inv_editKey hs k c
+  | delKey k => exact inv_delKey hs k
+  | addMps n t ps => exact inv_addMps hs n t ps
+  | editMps u b n t ps => exact inv_editMps hs u b n t ps
+  | delMps n => exact inv_delMps hs n
 
 end DashLive.Store
